@@ -195,6 +195,46 @@ fn dialect_values(thorough: bool) -> Vec<RV> {
     v
 }
 
+fn check_presets(acc: &mut Acc, rank: u64, v: &Val) {
+    let (p, r) = (PR::elisp(), PO::elisp());
+    acc.evals += 1;
+    let val = v.m.to_value();
+    let case = || json!({"pr": p.index(), "po": r.index(), "value": v.m.to_string()});
+    let w = || format!("value={}", trunc(&v.m.to_string(), 200));
+    for (name, preset, explicit) in [("print::Options::elisp()", lexpr::print::Options::elisp(), p.to_lexpr()), ("print::Options::default()", lexpr::print::Options::default(), PR::default_().to_lexpr())] {
+        let a = guard(|| lexpr::print::to_string_custom(&val, preset).ok()).ok().flatten();
+        let b = guard(|| lexpr::print::to_string_custom(&val, explicit).ok()).ok().flatten();
+        if a != b {
+            acc.violation("presets", "printer-preset-differs", &format!("printer-preset-differs:{}", name), rank, w(), format!("{} prints {:?}, the documented option set prints {:?}", name, a, b), case);
+        }
+    }
+    if !allowed(v, &p, &r) {
+        acc.count("skipped-name-not-plain-in-dialect");
+        return;
+    }
+    acc.nontrivial += 1;
+    if rank % 53 == 0 {
+        acc.outcome(&v.m.nodes());
+    }
+    acc.sample(rank, || v.m.to_string());
+    let text = match guard(|| lexpr::print::to_string_custom(&val, lexpr::print::Options::elisp()).ok()).ok().flatten() {
+        Some(t) => t,
+        None => return, // reported by the dialect-elisp sub-check
+    };
+    let want = fold(&p, &r, &v.m);
+    for (name, got) in [("from_str_custom(parse::Options::elisp())", guard(|| lexpr::from_str_custom(&text, lexpr::parse::Options::elisp()))), ("from_str_elisp", guard(|| lexpr::parse::from_str_elisp(&text)))] {
+        match got {
+            Ok(Ok(g)) => {
+                if let Err(e) = crate::roundtrip::cmp_roundtrip(&want, &RV::from_value(&g)) {
+                    acc.violation("presets", "preset-round-trip-differs", &format!("preset-round-trip-differs:{}", name), rank, w(), format!("{} of {:?}: {}", name, trunc(&text, 200), e), case);
+                }
+            }
+            Ok(Err(e)) => acc.violation("presets", "preset-not-readable", &format!("preset-not-readable:{}", name), rank, w(), format!("{} rejects {:?}: {}", name, trunc(&text, 200), e), case),
+            Err(pn) => acc.violation("presets", "panic", "panic", rank, w(), pn, case),
+        }
+    }
+}
+
 pub fn replay(sub: &str, case: &J, acc: &mut Acc) {
     let p = PR::from_index(case["pr"].as_u64().unwrap_or(0));
     let r = PO::from_index(case["po"].as_u64().unwrap_or(0));
@@ -208,6 +248,13 @@ pub fn replay(sub: &str, case: &J, acc: &mut Acc) {
     let want = case["value"].as_str().unwrap_or("");
     let mut dom = small_values(true);
     dom.extend(dialect_values(true));
+    if sub == "presets" {
+        if let Some(m) = dom.iter().find(|m| m.to_string() == want) {
+            let vs = mk_vals(vec![m.clone()]);
+            check_presets(acc, 0, &vs[0]);
+        }
+        return;
+    }
     match dom.iter().find(|m| m.to_string() == want) {
         Some(m) => check_cell(acc, sub, 0, &p, &r, m, sub.starts_with("dialect")),
         None => eprintln!("replay: value not found in the domain"),
@@ -270,6 +317,21 @@ pub fn run(ctx: &Ctx) -> Report {
             }
             acc.sample(rank, || v.m.to_string());
             check_cell(acc, name, rank, &p, &r, &v.m, true);
+        });
+        rep.absorb(sub, accs);
+    }
+    if ctx.want("presets") {
+        // the statement's "in particular": the Emacs Lisp presets themselves, not only option sets
+        // that the harness builds field by field
+        let vals = mk_vals(dialect_values(thorough));
+        let (p, r) = (PR::elisp(), PO::elisp());
+        let sub = Sub::new(
+            "presets",
+            "print::Options::elisp() prints every value of the dialect domain exactly like the documented Emacs Lisp option set built field by field (and print::Options::default() like the documented default set), and the printed text read with parse::Options::elisp() (and from_str_elisp) equals the fold of the value; non-trivial = every checked value",
+            &format!("{} values", vals.len()),
+        );
+        let accs = par_ranks(vals.len() as u64, |rank, acc| {
+            check_presets(acc, rank, &vals[rank as usize]);
         });
         rep.absorb(sub, accs);
     }
